@@ -270,6 +270,58 @@ def run(ctx):
                  ("the cw20 twin pulls %s from the caller; success of the native call is conditioned on the attached coins by %s" % (sorted(pull_roots[root])[:3], sorted(gates)[:3]))
                  if gates else "the cw20 twin pulls from the caller here; no success condition of the arm constrains the attached coins beyond the collateral-coin lookup")
 
+    # ---- R13.5: coins attached to a native call are already part of the engine's balance when a reply reads it; a
+    # step that sizes an insurance top-up from that balance although the attached coins are not tracked (no SentFunds
+    # record on the chain) treats the trader's fee coins as vault money: the top-up is too small by exactly that amount
+    ctx.rule("R13.5", "no reply of a chain whose attached native coins are untracked sizes an insurance top-up from the engine balance", 1)
+
+    def sizes_from_balance(fn, depth=3):
+        reads_bal = emits_w = False
+        try:
+            for p in ix.ok_paths(fn):
+                for e in p.events:
+                    qq = ix.parse_query(e.result)
+                    if qq and (qq.get("bank") is not None or (qq.get("msg") is not None and (ix.msg_variant(qq["msg"]) or (0, ""))[1] == "Balance")):
+                        reads_bal = True
+                    if e.target is not None and depth > 0:
+                        r2, e2 = sizes_from_balance(e.target, depth - 1)
+                        reads_bal = reads_bal or r2
+                        emits_w = emits_w or e2
+                for s_ in model.path_submsgs(ix, p):
+                    mv = ix.msg_variant(s_.inner_msg()) if s_.inner_msg() is not None else None
+                    if mv and mv[1] == "Withdraw":
+                        emits_w = True
+        except Exception:
+            pass
+        return reads_bal, emits_w
+
+    for ckey in sorted(em.chains):
+        root = ckey.split(">")[0]
+        sts = em.chains[ckey]
+        if root not in pull_roots or len(sts) == 1:
+            continue
+        st = sts[-1]
+        tracked = False
+        sized = 0
+        for q in st.ok_paths():
+            for e in q.events:
+                if guards.loaded_item(ix, e.result, ENG) == FUNDS or (e.result is not None and guards.loaded_item(ix, sym.unwrap(e.result), ENG) == FUNDS):
+                    tracked = True
+                if e.target is not None:
+                    rb, ew = sizes_from_balance(e.target)
+                    if rb and ew:
+                        sized += 1
+            for wr in st.writes(q):
+                if wr["item"] == FUNDS:
+                    tracked = True
+        if not sized:
+            continue
+        ctx.inst("R13.5", "attached-funds-in-balance:%s" % ckey, tracked, st.fn.where(),
+                 ("%d balance-sized payout calls; the chain keeps a SentFunds record of the attached coins" % sized) if tracked else
+                 ("%d balance-sized payout calls on a chain without any record of the attached coins: with native collateral the fees the trader attaches "
+                  "(what the cw20 twin pulls: %s) are counted as vault money, the insurance top-up is too small by that amount and the fee transfers fail "
+                  "when the payout exceeds the vault, while the cw20 twin succeeds" % (sized, sorted(pull_roots[root])[:2])))
+
     # exact match semantics of the check function
     chk = None
     for f in w.crate_fns(ENG):
